@@ -526,7 +526,10 @@ class Connection(object):
 
     def _access_attr(self, obj, name, args, overrider, param, default):  # attribute access
         if type(name) is bytes:
-            name = str(name, "utf8")
+            try:
+                name = str(name, "utf8")
+            except UnicodeDecodeError:
+                raise TypeError("name must be a string")
         elif type(name) is not str:
             raise TypeError("name must be a string")
         accessor = getattr(type(obj), overrider, None)
